@@ -76,11 +76,13 @@ def _serialize_element(
     if not schema.get("properties", True):
         del schema["properties"]
     if "properties" in schema:
-        schema["required"] = [
+        required = list(schema.get("required", []))
+        required.extend(
             prop.source or name
             for name, prop in schema["properties"].items()
-            if prop.required
-        ]
+            if prop.required and (prop.source or name) not in required
+        )
+        schema["required"] = required
     if not schema.get("required", True):
         del schema["required"]
     if isinstance(element, CompositionElement):
